@@ -78,6 +78,31 @@ type remoteAuthorizer struct {
 type authorizationInformation struct {
 	Headers http.Header `json:"headers"`
 	Payload any         `json:"payload"`
+	// The response body as received and its content type. Set only, if the types of the values in the
+	// payload decoded from it (e.g. integers in yaml) get lost, when the payload is stored as json.
+	Body        []byte `json:"body,omitempty"`
+	ContentType string `json:"content_type,omitempty"`
+}
+
+// restorePayload decodes the payload again from the response body, if the latter has been stored.
+func (ai *authorizationInformation) restorePayload() error {
+	if len(ai.Body) == 0 {
+		return nil
+	}
+
+	decoder, err := contenttype.NewDecoder(ai.ContentType)
+	if err != nil {
+		return err
+	}
+
+	payload, err := decoder.Decode(ai.Body)
+	if err != nil {
+		return err
+	}
+
+	ai.Payload = payload
+
+	return nil
 }
 
 func (ai *authorizationInformation) addHeadersTo(headerNames []string, ctx heimdall.Context) {
@@ -173,7 +198,7 @@ func (a *remoteAuthorizer) Execute(ctx heimdall.Context, sub *subject.Subject) e
 		if entry, err := cch.Get(ctx.AppContext(), cacheKey); err == nil {
 			var ai authorizationInformation
 
-			if err = json.Unmarshal(entry, &ai); err == nil {
+			if err = json.Unmarshal(entry, &ai); err == nil && ai.restorePayload() == nil {
 				logger.Debug().Msg("Reusing authorization information from cache")
 
 				// the authorization information might have been cached while executing another rule
@@ -300,20 +325,24 @@ func (a *remoteAuthorizer) doAuthorize(
 
 	defer resp.Body.Close()
 
-	data, err := a.readResponse(ctx, resp)
+	authInfo := &authorizationInformation{Headers: resp.Header}
+
+	authInfo.Payload, err = a.readResponse(ctx, resp, authInfo)
 	if err != nil && !errors.Is(err, errNoContent) {
 		return nil, err
 	}
 
-	err = a.verify(ctx, data)
+	err = a.verify(ctx, authInfo.Payload)
 	if err != nil {
 		return nil, err
 	}
 
-	return &authorizationInformation{Headers: resp.Header, Payload: data}, nil
+	return authInfo, nil
 }
 
-func (a *remoteAuthorizer) readResponse(ctx heimdall.Context, resp *http.Response) (any, error) {
+func (a *remoteAuthorizer) readResponse(
+	ctx heimdall.Context, resp *http.Response, authInfo *authorizationInformation,
+) (any, error) {
 	logger := zerolog.Ctx(ctx.AppContext())
 
 	if !(resp.StatusCode >= http.StatusOK && resp.StatusCode < http.StatusMultipleChoices) {
@@ -350,6 +379,14 @@ func (a *remoteAuthorizer) readResponse(ctx heimdall.Context, resp *http.Respons
 		return nil, errorchain.NewWithMessage(heimdall.ErrInternal, "failed to unmarshal response").
 			WithErrorContext(a).
 			CausedBy(err)
+	}
+
+	if _, ok := decoder.(contenttype.YAMLDecoder); ok {
+		// yaml distinguishes between integers and floating point numbers, json, which is used to
+		// cache the payload, does not. An expression, which holds for the payload as received, could
+		// otherwise fail (or hold) for the same payload taken from the cache.
+		authInfo.Body = rawData
+		authInfo.ContentType = contentType
 	}
 
 	return result, nil
